@@ -69,6 +69,8 @@ def _only_err_paths(b, start, exit_bb, avoid, errs):
 
 
 def run(ctx, rep):
+    from props import accessors as _acc
+    _acc.check(ctx, rep, 'C08', 'R08.acc')
     rep.rule('R08.a', 'every membership or partition-count change is followed by a full reassignment; a disconnect leaves every group', floor=8, analysis='A2')
     must_reach(ctx, rep, 'R08.a', CG + '::add_member', CG + '::assign_partitions')
     must_reach(ctx, rep, 'R08.a', CG + '::reassign_partitions', CG + '::assign_partitions')
